@@ -106,6 +106,16 @@ retry_fetch_lv:
             v_at_fetch_lv.get_vinsert_delete()) {
             goto retry_fetch_lv; // NOLINT
         }
+        if constexpr (!is_inlinable<ValueType>()) {
+            if (vp == nullptr) {
+                /**
+                 * A concurrent remove cleared this slot but has not removed it from the
+                 * permutation yet, and remove does not change the node version.
+                 * Fetch again: that waits for the remove and then does not find the key.
+                 */
+                goto retry_fetch_lv; // NOLINT
+            }
+        }
         out = std::make_pair(v_body, value::get_len(vp));
         return status::OK;
     }
